@@ -356,6 +356,10 @@ impl<E: Entry, const N: usize> Entry for WithDimensions<E, N> {
     fn write<'a>(&'a self, writer: &mut impl EntryWriter<'a>) {
         self.value.write(&mut self.entry_writer_wrapper(writer))
     }
+
+    fn sample_group(&self) -> impl Iterator<Item = crate::entry::SampleGroupElement> {
+        self.value.sample_group()
+    }
 }
 
 #[cfg(test)]
